@@ -23,6 +23,7 @@ EXPLANATION = (
     "shape parameter reach the result; is_monotonic() is True iff tsukamoto() is overridden (a computed answer needs an override); "
     "elementwise safety of every kernel (C02/V1); operators only after scalar() coercion (V8); kernels are pure functions of x and the parameters (K1)"
     "; no division between plain numbers (no array operand in it) has a zero denominator at any valid order type (A4: Python raises where numpy yields inf); every kernel returns the broadcast shape of its operands and never reduces over, indexes away or concatenates along an operand's dimension (V9 on the shape lattice)"
+    "; Discrete is height * numpy.interp(x, column 0, column 1) with numpy's default ends; x witnesses within the comparison tolerance of every parameter witness; a min / max the order type leaves open is decided at the witness (a disagreement there is a concrete counterexample)"
 )
 ASSUMPTIONS = [
     "real arithmetic: equality with the documented closed form is decided over the reals; floating-point rounding at the ends of a support "
